@@ -2,6 +2,7 @@
 # Under the terms of Contract DE-NA0003525 with NTESS, the U.S. Government retains
 # certain rights in this software.
 import enum
+import math
 
 from jaqalpaq.error import JaqalError
 
@@ -171,9 +172,7 @@ class Parameter(AnnotatedValue):
                     f"Type-checking failed: parameter {self.name}={value} does not have type {self.kind}."
                 )
         elif self.kind == ParamType.INT:
-            if (isinstance(value, float) and int(value) == value) or isinstance(
-                value, int
-            ):
+            if _is_integral_float(value) or isinstance(value, int):
                 pass
             elif isinstance(value, AnnotatedValue) and value.kind in (
                 ParamType.INT,
@@ -183,8 +182,9 @@ class Parameter(AnnotatedValue):
             elif (
                 isinstance(value, AnnotatedValue)
                 and value.kind == ParamType.FLOAT
-                and int(value.value) == value.value
+                and _is_integral_float(getattr(value, "value", None))
             ):
+                # A let constant with an integral floating point value
                 pass
             else:
                 raise JaqalError(
@@ -209,6 +209,11 @@ class Parameter(AnnotatedValue):
             return Register(name, alias_from=self, alias_slice=key)
         else:
             return NamedQubit(name, self, key)
+
+
+def _is_integral_float(value):
+    """Return whether value is a finite float that represents an integer."""
+    return isinstance(value, float) and math.isfinite(value) and int(value) == value
 
 
 def make_item_name(array, index):
